@@ -76,6 +76,54 @@ def contour_cases(ctx, vc, cfgs, seed_shift=0, grids=GRID_MIX_C02, n_quick=60, f
     return cases
 
 
+NEAR_EPS = ["1e-12", "1e-9", "1e-7", "1e-5", "1e-3"]
+
+
+def near_limit_cases(ctx, vc, cfgs):
+    """contours whose grid total T sits just below / just above 1 - alpha: the cell
+    probabilities do not depend on alpha, so T is measured once (exactly, as the sum of the
+    projected cells) and alpha := 1 - T * (1 +- eps) for eps = 1e-12 .. 1e-3.  Small grids
+    (slack 200*N*1e-18 well below T * 1e-12).  1 - alpha > T must warn, 1 - alpha < T must not."""
+    from decimal import Decimal, getcontext
+    getcontext().prec = 60
+    rng = np.random.default_rng(ctx.seed * 613 + 2)
+    pool = [c for c in cfgs if c["grid"] == "fit" and c["deltas"] == "list" and c["limits"] == "explicit"
+            and c["aniso"] == "1" and c["alpha"] in ("tiny", "small", "mid")]
+    pool = [pool[i] for i in rng.permutation(len(pool))]
+    out, bases = [], 0
+    want = ctx.pick(4, 16)
+    for cfg in pool * 12:        # each visit draws a new model / grid
+        if bases >= want:
+            break
+        base = H.make_contour_case(vc, rng, cfg, (10, 22), (6, 9))
+        # shave the upper limits so that the grid loses a little more than alpha of the probability
+        for lim in base["limits"]:
+            lim[1] = round(lim[0] + (lim[1] - lim[0]) * float(rng.uniform(0.72, 0.9)), 3)
+        obs = H.observe_contour(vc, base, want_pref=False, want_resort=False)
+        if obs["exc"] and not is_empty_selection(obs):
+            continue
+        P = obs["cap"]["P"]
+        if P.size > 2500:
+            continue
+        T = sum(H.q18(v) for v in P.ravel().tolist())          # exact, units of 1e-18
+        if not (0.7 * H.S18 <= T <= H.S18 - 10 ** 12):           # alpha would leave [1e-6, 0.3]
+            continue
+        bases += 1
+        for eps in NEAR_EPS:
+            for side in (+1, -1):
+                Lq = int(Decimal(T) * (1 + side * Decimal(eps)))
+                aq = H.S18 - Lq
+                if not (10 ** 12 <= aq <= 3 * 10 ** 17):
+                    continue
+                c = dict(base)
+                c["alpha"] = format(Decimal(aq) / Decimal(H.S18), "f")
+                c["cfg"] = dict(cfg, grid="near", near=f"1-alpha = T*(1{'+' if side > 0 else '-'}{eps})")
+                out.append(c)
+    if bases < want:
+        raise Machinery(f"near-limit cases: only {bases} of {want} base grids found")
+    return out
+
+
 def is_empty_selection(obs):
     """densest cell alone exceeds 1 - alpha: the code raises IndexError (recorded behaviour of
     the 'Empty' outcome in HDC.tla, nothing is claimed about it)"""
@@ -120,9 +168,15 @@ def judge(ctx, vc, cases, label, base_id=0):
     return kept
 
 
+SHIFTS = {0: 0.0, 1: 2.0 ** -30, -1: -(2.0 ** -30), 2: 2.0 ** -21, -2: -(2.0 ** -21)}
+
+
 def selection_records(vc, sel_cases, base_id=300000):
     """Leg R for the selection: the TLC-enumerated (P, L) executed on the real staticmethod
-    as dyadic floats (P/16, L/16) in 1-D and, where the length allows, 2-D / 3-D shapes."""
+    as dyadic floats (P/16, L/16) in 1-D and, where the length allows, 2-D / 3-D shapes.
+    Every (P, L) is also run with the limit moved by +-2^-30 or +-2^-21 (exactly
+    representable, far below the grid 1/16 of the sums): for the judge this is the integer
+    problem 2P, 2L+-1 - the limit sits just above / just below an attainable sum."""
     import warnings
     fn = vc.HighestDensityContour.cumsum_biggest_until
     recs, cases = [], []
@@ -131,27 +185,32 @@ def selection_records(vc, sel_cases, base_id=300000):
         n = len(P)
         shapes = {4: [(4,), (2, 2)], 5: [(5,), (5, 1)], 6: [(2, 3), (6,)], 8: [(2, 2, 2)]}.get(n, [(n,)])
         shape = shapes[i % len(shapes)]
-        arr = (np.array(P, dtype=float) / 16.0).reshape(shape)
-        arr0 = arr.copy()
-        rec = dict(id=base_id + i + 1, kind="sel", exc="", P=list(P), L=int(L), R=[], last=0, lastexact=True,
-                   warned=False, empty=False)
-        with warnings.catch_warnings(record=True) as wl:
-            warnings.simplefilter("always")
-            try:
-                mask, last = fn(arr, L / 16.0)
-                rec["R"] = [int(v) for v in np.asarray(mask).ravel().tolist()]
-                rec["last"] = int(round(float(last) * 16))
-                rec["lastexact"] = bool(float(last) * 16 == rec["last"] and np.asarray(mask).shape == shape
-                                        and set(rec["R"]) <= {0, 1})
-            except IndexError:
-                rec["empty"] = True
-            except Exception as e:  # noqa
-                rec["exc"] = f"{type(e).__name__}: {e}"[:200]
-        rec["warned"] = any(issubclass(w.category, RuntimeWarning) for w in wl)
-        if not np.array_equal(arr, arr0):
-            rec["exc"] = "InputMutated"
-        recs.append(rec)
-        cases.append(dict(kind="sel", P=list(P), L=int(L), shape=list(shape)))
+        for sh in (sc["shift"],) if "shift" in sc else (0, (1, 2)[i % 2], (-1, -2)[(i // 2) % 2]):
+            if L == 0 and sh < 0:
+                continue
+            limit = L / 16.0 + SHIFTS[sh]
+            arr = (np.array(P, dtype=float) / 16.0).reshape(shape)
+            arr0 = arr.copy()
+            sgn = (sh > 0) - (sh < 0)
+            rec = dict(id=base_id + len(recs) + 1, kind="sel", exc="", P=[2 * v for v in P], L=2 * int(L) + sgn,
+                       R=[], last=0, lastexact=True, warned=False, empty=False)
+            with warnings.catch_warnings(record=True) as wl:
+                warnings.simplefilter("always")
+                try:
+                    mask, last = fn(arr, limit)
+                    rec["R"] = [int(v) for v in np.asarray(mask).ravel().tolist()]
+                    rec["last"] = 2 * int(round(float(last) * 16))
+                    rec["lastexact"] = bool(float(last) * 32 == rec["last"] and np.asarray(mask).shape == shape
+                                            and set(rec["R"]) <= {0, 1})
+                except IndexError:
+                    rec["empty"] = True
+                except Exception as e:  # noqa
+                    rec["exc"] = f"{type(e).__name__}: {e}"[:200]
+            rec["warned"] = any(issubclass(w.category, RuntimeWarning) for w in wl)
+            if not np.array_equal(arr, arr0):
+                rec["exc"] = "InputMutated"
+            recs.append(rec)
+            cases.append(dict(kind="sel", P=list(P), L=int(L), shape=list(shape), shift=sh))
     return cases, recs
 
 
@@ -159,10 +218,11 @@ def judge_selection(ctx, vc, sel_cases, label):
     cases, recs = selection_records(vc, sel_cases)
     failing = ctx.validate("Trace_C02", "Trace_C02.cfg", recs, chunk=20000)
     for case, rec in zip(cases, recs):
-        key = f"cumsum_biggest_until P={case['P']}/16 limit={case['L']}/16 shape={case['shape']}"
+        key = (f"cumsum_biggest_until P={case['P']}/16 limit={case['L']}/16"
+               f"{'' if not case['shift'] else '%+g' % SHIFTS[case['shift']]} shape={case['shape']}")
         ctx.case(key, nontrivial=len(set(case["P"])) > 1 and 0 < case["L"] < sum(case["P"]))
         for clause in failing.get(rec["id"], []):
-            ctx.violation(clause, key, f"mask={rec['R']} last={rec['last']}/16 warned={rec['warned']} "
+            ctx.violation(clause, key, f"mask={rec['R']} last={rec['last']}/32 warned={rec['warned']} "
                           f"empty={rec['empty']} exc={rec['exc']!r}", replay=case)
     ctx.log(f"{label}: {len(recs)} direct selections judged, {sum(1 for r in recs if r['id'] in failing)} rejected")
     ctx.notes["direct_selection_calls"] = ctx.notes.get("direct_selection_calls", 0) + len(recs)
@@ -253,7 +313,10 @@ def run(ctx):
         "families (marginal or conditional with dependence functions) and a grid derived from the model's "
         "quantiles.  Additionally TLC enumerates every array P in [1..n -> 0..v] and limit L (n=4,v=3 quick; n=5,v=3 "
         "and n=6,v=2 thorough) and each is executed on the real staticmethod cumsum_biggest_until as dyadic floats "
-        "(exact ties cum = limit occur).  distinct = distinct (model structure+parameters, alpha, limits, deltas); non-trivial = no "
+        "(exact ties cum = limit occur), also with the limit moved by +-2^-30 / +-2^-21 (just above / below an "
+        "attainable sum).  Near-limit contours: for 4 (quick) / 16 (thorough) small grids the total T of the grid is "
+        "measured and alpha := 1 - T*(1 +- eps), eps = 1e-12, 1e-9, 1e-7, 1e-5, 1e-3 (warning required on one side, "
+        "forbidden on the other).  distinct = distinct (model structure+parameters, alpha, limits, deltas); non-trivial = no "
         "exception, not on the warn path, at least 4 cells enclosed and at least one cell excluded")
     ctx.trusted = [
         "TLC 1.8 evaluating spec/HDCOps.tla two-limb arithmetic and spec/Trace_C02.tla clauses",
@@ -276,6 +339,7 @@ def run(ctx):
         ctx.model_check("HDC", cfg, must_cover=("Sort", "Accumulate", "Select", "Warn", "Erode", "Label"),
                         timeout=3000)
     ctx.model_check("HDC", "MC_HDC_mut_strict.cfg", expect_violation="Tight")
+    ctx.model_check("HDC", "MC_HDC_mut_close.cfg", expect_violation="WarnIff")
     ctx.model_check("HDC", "MC_HDC_naive.cfg", expect_violation="NaiveEq")
     # R
     cfgs = ctx.generate("HDCGen", "Gen_HDC.cfg")
@@ -287,6 +351,10 @@ def run(ctx):
     # V
     sel_recs = judge_selection(ctx, vc, sel_cases, "selection domain")
     kept = judge(ctx, vc, cases, "contours")
+    near = near_limit_cases(ctx, vc, cfgs)
+    kept_near = judge(ctx, vc, near, "grids with total just below / above 1 - alpha", base_id=100000)
+    ctx.notes["near_limit_contours"] = len(kept_near)
+    ctx.notes["near_limit_warned"] = sum(1 for _, r, _ in kept_near if r["warned"])
     self_test(ctx)
     mid = kept[len(kept) // 3]
     small = min((k for k in kept if not k[1]["exc"]), key=lambda k: k[2]["n"])
